@@ -147,6 +147,21 @@ def gen_program(rng, profile, index=None):
             'form': _w(rng, [('direct', 5), ('deco', 3), ('bare', 2)]) if T == 1.0 else _w(rng, [('direct', 6), ('deco', 4)])}
     if base == 'c03' and rng.random() < 0.3:
         prog['final'] = 'sleep'         # no closing wait(): "eventually" must not depend on somebody waking the loop
+    if base in ('c03', 'c08') and rng.random() < 0.3:
+        # a second, independent buffer object on the same loop with a little traffic of its own
+        n2 = rng.randint(1, 3)
+        t2 = 0.0
+        by = []
+        for j in range(n2):
+            t2 += _w(rng, gaps)
+            by.append({'at': t2, 'elem': 1000 + j})
+        prog['bystander'] = {'T': rng.choice([0.125, 1.0]), 'ops': by}
+    if base in ('c03', 'c08') and not prog['foreign'] and rng.random() < 0.25:
+        # the creating thread keeps the loop as its current loop but lets loop_in_thread() run it: it then submits as an
+        # ordinary thread.  No waits in this configuration; the run ends after one long sleep.
+        prog['runner'] = 'thread'
+        prog['final'] = 'sleep'
+        prog['ops'] = [o for o in prog['ops'] if o['op'] not in ('wait', 'call_wait', 'await', 'amap')]
     if base == 'c07' and profile.endswith('-shutdown'):
         prog['foreign'] = []
         horizon = (ops[-1]['at'] if ops else 0.0) + 3 * T
@@ -212,6 +227,9 @@ class BufferWorld:
         self.harness_errors = []
         self.owner_done = False
         self.foreign_done = 0
+        self.buf2 = None
+        self.by_calls = []
+        self.by_submitted = []
         self.loop_running = False
 
     def viol(self, prop, oracle, sig, detail, **features):
@@ -384,17 +402,58 @@ class BufferWorld:
                           f'elements {missing} of submission {sub.sid} ({sub.op["op"]}, submitted t={sub.t}) not yet in a '
                           f'successful call', kind=sub.op['op'], thread=str(W.thread))
 
-    async def amain(self):
-        sch = self.sch
+    def make_buffers(self):
         aa = self.aa
         p = self.prog
-        loop = self.loop = asyncio.get_running_loop()
         if p['form'] == 'direct':
             self.buf = aa.buffer_until_timeout(self.func, timeout=self.T)
         elif p['form'] == 'deco':
             self.buf = aa.buffer_until_timeout(timeout=self.T)(self.func)
         else:
             self.buf = aa.buffer_until_timeout(self.func)          # default timeout == 1
+        if p.get('bystander'):
+            self.buf2 = aa.buffer_until_timeout(self.func2, timeout=p['bystander']['T'])
+            for o in p['bystander']['ops']:
+                self.loop.call_at(o['at'], self.by_submit, o)
+
+    async def func2(self, inputs):
+        self.by_calls.append((self.sch.clock, frozenset(inputs)))
+        self.sch.log('func2', sorted(inputs))
+
+    def by_submit(self, o):
+        self.by_submitted.append(o['elem'])
+        self.buf2(o['elem'])
+
+    def run_in_thread(self):
+        """The creator thread sets the loop as current, builds the buffer, then hands the loop to loop_in_thread()."""
+        sch = self.sch
+        p = self.prog
+        loop = self.loop = SimLoop()
+        asyncio.set_event_loop(loop)
+        self.make_buffers()
+        stop = self.aa.loop_in_thread(loop)
+        self.loop_running = True
+        self.phase = 'program'
+        for op in p['ops']:
+            if op['at'] > sch.clock:
+                sch.sleep(op['at'] - sch.clock)
+            self.submit('owner', op)
+        horizon = max([o['at'] for o in p['ops']] + [o['at'] for o in (p.get('bystander') or {}).get('ops', ())] + [0.0]) \
+            + 4 * max(self.T, (p.get('bystander') or {}).get('T', 0.0)) + sum(f['dur'] + self.T for f in p['func']) \
+            + sum(sum(o.get('delays', ())) for o in p['ops'])
+        self.phase = 'final-sleep'
+        if horizon > sch.clock:
+            sch.sleep(horizon - sch.clock)
+        self.phase = 'done'
+        stop()
+        asyncio.set_event_loop(None)
+
+    async def amain(self):
+        sch = self.sch
+        aa = self.aa
+        p = self.prog
+        loop = self.loop = asyncio.get_running_loop()
+        self.make_buffers()
         self.loop_running = True
         self.phase = 'program'
         wtasks = []
@@ -421,7 +480,9 @@ class BufferWorld:
             # wakes the loop while foreign threads submit.  Long enough for every submission instant, producer delay,
             # failing invocation's retry and the quiet period.
             allops = p['ops'] + [x for fo in p['foreign'] for x in fo]
-            horizon = max([o['at'] for o in allops] + [0.0]) + 4 * self.T + sum(f['dur'] + self.T for f in p['func']) + sum(
+            by = p.get('bystander') or {}
+            horizon = max([o['at'] for o in allops] + [o['at'] for o in by.get('ops', ())] + [0.0]) + 4 * max(self.T, by.get('T', 0.0)) \
+                + sum(f['dur'] + self.T for f in p['func']) + sum(
                 sum(o.get('delays', ())) + o.get('delay', 0.0) for o in allops)
             self.phase = 'final-sleep'
             if horizon > loop.time():
@@ -440,6 +501,17 @@ class BufferWorld:
 
     def owner(self):
         sch = self.sch
+        if self.prog.get('runner') == 'thread':
+            try:
+                self.run_in_thread()
+            except S.Abort:
+                raise
+            except BaseException as e:  # noqa
+                self.harness_errors.append(f'owner: {type(e).__name__}: {e}')
+            finally:
+                self.owner_done = True
+                self.loop_running = False
+            return
         try:
             runner = asyncio.Runner(loop_factory=SimLoop)
             with runner:
@@ -573,6 +645,28 @@ class BufferWorld:
                         self.viol('C03', 'buffer.duplicate_delivery', 'own-thread argument delivered to more than one successful call',
                                   f'element {e} of submission {s.sid} in {n} successful invocations', foreign_threads=len(self.prog['foreign']))
                         break
+        # the second buffer object is independent: it gets exactly its own arguments, the first one none of them
+        if self.prog.get('bystander') and (self.phase == 'done' or end == 'quiescent'):
+            got2 = set()
+            for t, a in self.by_calls:
+                got2 |= a
+            alien2 = sorted(got2 - set(self.by_submitted))
+            lost2 = sorted(set(self.by_submitted) - got2) if self.prog.get('final') == 'sleep' or end == 'quiescent' else []
+            if alien2 or lost2:
+                self.viol('C03', 'buffer.crosstalk', 'two buffer objects are not independent',
+                          f'second buffer submitted {self.by_submitted}, its function got {sorted(got2)} in {len(self.by_calls)} call(s) '
+                          f'(foreign: {alien2}, never delivered: {lost2})')
+                if 'C08' in props:
+                    self.viol('C08', 'buffer.crosstalk', 'two buffer objects are not independent: a burst went to the wrong function or nowhere',
+                              f'second buffer submitted {self.by_submitted}, its function got {sorted(got2)} (foreign: {alien2}, never '
+                              f'delivered: {lost2})')
+        if 'C08' in props:
+            for I in self.invs:
+                alien = [e for e in I.args if e not in produced]
+                if alien:
+                    self.viol('C08', 'buffer.foreign_arguments_in_call', "a call received arguments that were never submitted to this buffer",
+                              f'invocation {I.i} at t={I.t0} got {alien}')
+                    break
         # retention after failure
         for a, I in enumerate(self.invs):
             if I.outcome != 'fail':
